@@ -313,6 +313,8 @@ def _load():
     reg('E4.sample', lambda fs: fs.sample(), no_compare=True, group='interference')
     reg('E4.fixed_size_sample', lambda fs, n: fs.fixed_size_sample(n), no_compare=True, group='interference')
     reg('E4.seterr_probe', lambda: dict(np.geterr()), group='interference')
+    from . import ops_c19
+    ops_c19.register()
 
 
 def _lp_pp(LP, n, t, Fx, af):
